@@ -11,6 +11,13 @@ pid,w=sys.argv[1],sys.argv[2]
 prop=[json.loads(l) for l in open('/verif/properties.jsonl') if json.loads(l)['id']==pid][0]
 text=f"**{prop['id']} — {prop['title']}**\n\n{prop['statement']}\n\n(Quantified over: {prop['quantifier']['text']})"
 brief=open('/verif/tools/MUTATION_BRIEF.md').read().replace('PROPERTY_TEXT',text).replace('WORKDIR',w)
+import glob,os
+prev=[]
+for d in sorted(glob.glob('/verif/seeded/%s-*'%pid)):
+    try: prev.append('* '+json.load(open(d+'/meta.json')).get('summary',''))
+    except Exception: pass
+if prev and os.environ.get('ROUND2'):
+    brief=brief.replace('## How to work','## Changes other engineers already proposed for this property (choose DIFFERENT places and mechanisms)\n\n'+'\n'.join(prev)+'\n\n## How to work')
 open(w+'/BRIEF.md','w').write(brief)
 PY
 echo "$W"
